@@ -218,7 +218,7 @@ fn hook_child(codes: &[usize]) -> ! {
     let mut lock: Option<std::io::StdoutLock<'static>> = None;
     let watchdog = || {
         std::thread::spawn(|| {
-            std::thread::sleep(Duration::from_millis(HOOK_WATCHDOG_MS));
+            std::thread::sleep(Duration::from_millis(HOOK_WATCHDOG_MS * vh::patience()));
             std::process::exit(42);
         });
     };
@@ -269,7 +269,7 @@ fn hook_child(codes: &[usize]) -> ! {
                 let h = std::thread::spawn(|| panic!("boom elsewhere"));
                 let t0 = Instant::now();
                 while !h.is_finished() {
-                    if t0.elapsed() > Duration::from_millis(HOOK_WATCHDOG_MS) {
+                    if t0.elapsed() > Duration::from_millis(HOOK_WATCHDOG_MS * vh::patience()) {
                         std::process::exit(42);
                     }
                     std::thread::sleep(Duration::from_micros(200));
@@ -316,7 +316,7 @@ fn run_hook_child(codes: &[usize]) -> (i64, Vec<usize>) {
         match child.try_wait() {
             Ok(Some(st)) => break st.code().map(|c| c as i64).unwrap_or(-3),
             Ok(None) => {
-                if t0.elapsed() > Duration::from_secs(40) {
+                if t0.elapsed() > Duration::from_secs(40 * vh::patience()) {
                     let _ = child.kill();
                     let _ = child.wait();
                     break -1;
@@ -403,7 +403,7 @@ fn run_child(w: usize, n: usize, p: usize, scenario: usize) -> bool {
         match child.try_wait() {
             Ok(Some(st)) => return st.code() != Some(3),
             Ok(None) => {
-                if t0.elapsed() > Duration::from_secs(20) {
+                if t0.elapsed() > Duration::from_secs(20 * vh::patience()) {
                     let _ = child.kill();
                     let _ = child.wait();
                     return false;
@@ -761,6 +761,10 @@ impl Prop for C09 {
                 let p = dropk?;
                 let t = run_child(w, xs.len(), p, cap);
                 tags.push(format!("scenario{cap}"));
+                if !t {
+                    // the verdict rests on a time limit: the runner re-runs such a case alone and patiently
+                    tags.push("timing-verdict".into());
+                }
                 if w > 0 && p < xs.len() {
                     tags.push("nt".into());
                 }
@@ -769,11 +773,17 @@ impl Prop for C09 {
             3 => {
                 let (a, b, e) = pipe_free(w, dropk?);
                 tags.push(format!("ahead{a}"));
+                if !e {
+                    tags.push("timing-verdict".into());
+                }
                 Val::L(vec![Val::I(a), Val::I(b), Val::b(e)])
             }
             4 => {
                 let (a, b, e) = buffered_free(cap, dropk?);
                 tags.push(format!("ahead{a}"));
+                if !e {
+                    tags.push("timing-verdict".into());
+                }
                 Val::L(vec![Val::I(a), Val::I(b), Val::b(e)])
             }
             5 => {
@@ -787,6 +797,9 @@ impl Prop for C09 {
                 let (status, counts) = run_hook_child(&codes);
                 tags.extend(hook_tags(&codes));
                 tags.push(format!("status{status}"));
+                if status == 42 || status == -1 {
+                    tags.push("timing-verdict".into());
+                }
                 if counts.iter().any(|c| *c > 0) {
                     tags.push("printed".into());
                 }
